@@ -53,6 +53,12 @@ C = {
          "prev<cur<new and inside each source must be preserved and dense.", TRUST + " Uses the cfg(aquavm_verif) event sink.", "ordering monitor over hook events", "5/C12"),
  "C13": ("Event sink reports every stream append, canon snapshot and fold visit; checked: no double insertion, no lost append, "
          "snapshots equal appends so far, folds visit each value at most once and every generation head.", TRUST + " Uses the cfg(aquavm_verif) event sink.", "exactly-once monitor over hook events", "5/C13"),
+ "C14": ("Fault enumeration with a participating attacker: 18 tampering operations (value, id, tetraplet, argument-hash edits with consistently "
+         "repaired stores, relocation, kind change, duplication, removal, signature edits, re-attribution, canon edits, whole-data replay from another "
+         "particle) applied to every third-party result in the last deliveries of generated honest histories, the attacker's own signature renewed; "
+         "the receiver must reject, or its output must verify, contain only results their peers really produced, at the positions of the honest merge.",
+         TRUST + " The attacker cannot forge other peers' ed25519 signatures. Ground truth = the honest history of the same particle.",
+         "fault enumeration (tamper catalogue) with ground-truth oracle", "5/C14"),
  "C15": ("Fault enumeration over honestly signed forks of one peer's data: at generated fork points (a par of 2-4 pending calls, with repeated "
          "result ids) every subset is answered, and every ordered pair of versions is delivered to a victim; incomparable result multisets must be "
          "rejected with the signature-check error and prev returned, comparable ones merged keeping the larger version's signature.",
@@ -96,7 +102,6 @@ C = {
 }
 
 NOT_BUILT = {
- "C14": "not claimed: the forged-result fault enumeration (DESIGN 5/C14) was not built in the time available (the tamper module is used by C01 only for crash detection)",
 }
 
 checks = []
